@@ -31,6 +31,12 @@ def generate(rng, tier):
     o2 = gen.Opts(p_doc=0.8, p_base=0.8, p_impl=0.8, p_vftable=0.3, p_enum=0.0, p_backend=0.0, p_extern_val=0.0, p_priv=0.2,
                   max_modules=2, max_items=6, max_fields=2, p_packed=0.0)
     out += clash_worlds(rng, n // 4, o2)
+    # attributes a site does not interpret, and what the derive flags demand of the fields
+    from . import rare
+    out += rare.derive_cases()
+    for i in range(n // 5):
+        c = rare.add_noise(rng, gen.world(rng, 'noise%d' % i, opts=o))
+        out.append(c)
     return out
 
 def spec_derives(attrs, is_enum):
@@ -44,6 +50,7 @@ def judge(c, impl, model):
     cid = c[1]
     info = {'dist': []}
     fs = k_compare(ID, c, impl, model)
+    fs += must_reject_findings(ID, c, impl)
     cls = outcome_class(impl.get('o3'))
     count(info, 'impl-' + cls)
     if cls != 'ok':
